@@ -713,3 +713,7 @@ package commitlog
 //@   ensures [nothing-newer-included] err == nil ==> (forall s int, i int64 :: 0 <= s && s < len(l.segments) && 0 <= i && i < entryCount(l.segments[s].Index) && entryTsAt(l.segments[s].Index, i) > timestamp ==> entryOffAt(l.segments[s].Index, i) > off)
 //@   ensures [nothing-older-left-out] err == nil && tsAllStrict(l) ==> (forall s int, i int64 :: 0 <= s && s < len(l.segments) && 0 <= i && i < entryCount(l.segments[s].Index) && entryTsAt(l.segments[s].Index, i) <= timestamp ==> entryOffAt(l.segments[s].Index, i) <= off)
 //@   ensures [nothing-older-left-out-equal-timestamps] err == nil ==> (forall s int, i int64 :: 0 <= s && s < len(l.segments) && 0 <= i && i < entryCount(l.segments[s].Index) && entryTsAt(l.segments[s].Index, i) <= timestamp ==> entryOffAt(l.segments[s].Index, i) <= off)
+
+// crash points (verification hook, see crashpoint_verif.go): the hook only observes the directory, it changes nothing
+//@ assume func crashPoint
+//@   modifies nothing
